@@ -117,7 +117,9 @@ std::string doStep(S &s, const json &st, long k) {
         long r = v["r"];
         std::vector<nix::Cell> cells;
         for (auto &cj : v["cols"]) { long c = cj; size_t ci = (size_t) c - 1;
-            if ((k + c) % 2) cells.push_back(nix::Cell{(unsigned) ci, val(s.types[ci], stamp(k, r, c))}); else cells.push_back(nix::Cell{s.names[ci], val(s.types[ci], stamp(k, r, c))}); }
+            // addressing of the cells: all by column index, all by name, or mixed (by call number)
+            bool byIndex = (k % 3 == 0) || (k % 3 == 2 && (c % 2));
+            if (byIndex) cells.push_back(nix::Cell{(unsigned) ci, val(s.types[ci], stamp(k, r, c))}); else cells.push_back(nix::Cell{s.names[ci], val(s.types[ci], stamp(k, r, c))}); }
         std::string o = outcome([&] { if (cells.size() == 1 && cells[0].haveName() == false) s.df.writeCell((nix::ndsize_t) r, cells[0].col, cells[0]); else s.df.writeCells((nix::ndsize_t) r, cells); });
         if (okExp) for (auto &cj : v["cols"]) s.cell[{r, cj.get<long>()}] = stamp(k, r, cj.get<long>());
         return o;
